@@ -167,8 +167,47 @@ pub fn digest_key_info(k: &KeyInfo) -> u64 {
     d.finish()
 }
 
+
+macro_rules! uni_npo_prover {
+    (yes, $p:ident, $cfg:ident, $d:expr, $p2cfg:expr) => {
+        if $cfg.npo.poseidon {
+            $p.register_poseidon2_table::<$d>($p2cfg);
+        }
+        if $cfg.npo.recompose {
+            $p.register_recompose_table::<$d>(false);
+        }
+    };
+    (no, $p:ident, $cfg:ident, $d:expr, $p2cfg:expr) => {};
+}
+macro_rules! uni_npo_builder {
+    (yes, $b:ident, $opts:ident, $p2params:ty, $defperm:path) => {
+        if $opts.poseidon {
+            $b.enable_poseidon2_perm::<$p2params, _>(p3_circuit::ops::generate_poseidon2_trace::<Self::EF, $p2params>, $defperm());
+        }
+        if $opts.recompose {
+            $b.enable_recompose::<Self::BF>(p3_circuit::ops::generate_recompose_trace::<Self::BF, Self::EF>);
+        }
+    };
+    (no, $b:ident, $opts:ident, $p2params:ty, $defperm:path) => {
+        let _ = $opts;
+    };
+}
+macro_rules! uni_npo_keygen {
+    (yes, $cfg:ident, $npo_prep:ident, $air_builders:ident, $sc:ty, $d:expr) => {
+        if $cfg.npo.poseidon {
+            $npo_prep.push(Box::new(p3_circuit_prover::Poseidon2Preprocessor));
+            $air_builders.extend(p3_circuit_prover::batch_stark_prover::poseidon2_air_builders::<$sc, $d>());
+        }
+        if $cfg.npo.recompose {
+            $npo_prep.push(Box::new(p3_circuit_prover::RecomposePreprocessor::default()));
+            $air_builders.extend(p3_circuit_prover::batch_stark_prover::recompose_air_builders::<$sc, $d>(1, false));
+        }
+    };
+    (no, $cfg:ident, $npo_prep:ident, $air_builders:ident, $sc:ty, $d:expr) => {};
+}
+
 macro_rules! binomial_universe {
-    ($name:ident, $uname:expr, $params:ident, $efty:ty, $d:expr, $p2cfg:expr, $p2params:ty, $defperm:path) => {
+    ($name:ident, $uname:expr, $params:ident, $mkcfg:path, $efty:ty, $d:expr, $npo:ident, $p2cfg:expr, $p2params:ty, $defperm:path) => {
         pub struct $name;
         impl $name {
             pub fn packing(cfg: &ProverCfg) -> p3_circuit_prover::TablePacking {
@@ -177,7 +216,7 @@ macro_rules! binomial_universe {
                     .with_min_trace_height(cfg.min_height)
             }
             pub fn config() -> p3_test_utils::$params::MyConfig {
-                p3_test_utils::$params::make_test_config()
+                $mkcfg()
             }
             #[allow(clippy::type_complexity)]
             pub fn prover(cfg: &ProverCfg) -> p3_circuit_prover::BatchStarkProver<p3_test_utils::$params::MyConfig> {
@@ -185,14 +224,7 @@ macro_rules! binomial_universe {
                 if cfg.debug_lookups {
                     p = p.with_debug_lookups();
                 }
-                if $d > 1 {
-                    if cfg.npo.poseidon {
-                        p.register_poseidon2_table::<$d>($p2cfg);
-                    }
-                    if cfg.npo.recompose {
-                        p.register_recompose_table::<$d>(false);
-                    }
-                }
+                uni_npo_prover!($npo, p, cfg, $d, $p2cfg);
                 p
             }
         }
@@ -211,18 +243,7 @@ macro_rules! binomial_universe {
 
             fn builder(opts: BuilderOpts) -> CircuitBuilder<Self::EF> {
                 let mut b = CircuitBuilder::<Self::EF>::new();
-                #[allow(unused_comparisons)]
-                if $d > 1 {
-                    if opts.poseidon {
-                        b.enable_poseidon2_perm::<$p2params, _>(
-                            p3_circuit::ops::generate_poseidon2_trace::<Self::EF, $p2params>,
-                            $defperm(),
-                        );
-                    }
-                    if opts.recompose {
-                        b.enable_recompose::<Self::BF>(p3_circuit::ops::generate_recompose_trace::<Self::BF, Self::EF>);
-                    }
-                }
+                uni_npo_builder!($npo, b, opts, $p2params, $defperm);
                 b
             }
 
@@ -232,16 +253,7 @@ macro_rules! binomial_universe {
                 let packing = Self::packing(cfg);
                 let mut npo_prep: Vec<Box<dyn NpoPreprocessor<Self::BF>>> = Vec::new();
                 let mut air_builders = Vec::new();
-                if $d > 1 {
-                    if cfg.npo.poseidon {
-                        npo_prep.push(Box::new(p3_circuit_prover::Poseidon2Preprocessor));
-                        air_builders.extend(p3_circuit_prover::batch_stark_prover::poseidon2_air_builders::<SC, $d>());
-                    }
-                    if cfg.npo.recompose {
-                        npo_prep.push(Box::new(p3_circuit_prover::RecomposePreprocessor::default()));
-                        air_builders.extend(p3_circuit_prover::batch_stark_prover::recompose_air_builders::<SC, $d>(1, false));
-                    }
-                }
+                uni_npo_keygen!($npo, cfg, npo_prep, air_builders, SC, $d);
                 let profile = if cfg.profile_standard {
                     p3_circuit_prover::ConstraintProfile::Standard
                 } else {
@@ -368,8 +380,10 @@ binomial_universe!(
     Kb4,
     "U-KB4",
     koala_bear_params,
+    p3_test_utils::koala_bear_params::make_test_config,
     p3_field::extension::BinomialExtensionField<p3_koala_bear::KoalaBear, 4>,
     4,
+    yes,
     p3_circuit::ops::Poseidon2Config::KOALA_BEAR_D4_W16,
     p3_poseidon2_circuit_air::KoalaBearD4Width16,
     p3_koala_bear::default_koalabear_poseidon2_16
@@ -378,9 +392,86 @@ binomial_universe!(
     Bb4,
     "U-BB4",
     baby_bear_params,
+    p3_test_utils::baby_bear_params::make_test_config,
     p3_field::extension::BinomialExtensionField<p3_baby_bear::BabyBear, 4>,
     4,
+    yes,
     p3_circuit::ops::Poseidon2Config::BABY_BEAR_D4_W16,
     p3_poseidon2_circuit_air::BabyBearD4Width16,
     p3_baby_bear::default_babybear_poseidon2_16
 );
+
+// Universes without non-primitive tables (other extension degrees and reductions of the ALU table).
+binomial_universe!(
+    Bb5,
+    "U-BB5",
+    baby_bear_params,
+    p3_test_utils::baby_bear_params::make_test_config,
+    p3_field::extension::BinomialExtensionField<p3_baby_bear::BabyBear, 5>,
+    5,
+    no,
+    p3_circuit::ops::Poseidon2Config::BABY_BEAR_D4_W16,
+    p3_poseidon2_circuit_air::BabyBearD4Width16,
+    p3_baby_bear::default_babybear_poseidon2_16
+);
+binomial_universe!(
+    Kb5q,
+    "U-KB5Q",
+    koala_bear_quintic_params,
+    p3_test_utils::koala_bear_quintic_params::make_test_config,
+    p3_field::extension::QuinticTrinomialExtensionField<p3_koala_bear::KoalaBear>,
+    5,
+    no,
+    p3_circuit::ops::Poseidon2Config::KOALA_BEAR_D4_W16,
+    p3_poseidon2_circuit_air::KoalaBearD4Width16,
+    p3_koala_bear::default_koalabear_poseidon2_16
+);
+binomial_universe!(
+    Kb8,
+    "U-KB8",
+    koala_bear_params,
+    p3_test_utils::koala_bear_params::make_test_config,
+    p3_field::extension::BinomialExtensionField<p3_koala_bear::KoalaBear, 8>,
+    8,
+    no,
+    p3_circuit::ops::Poseidon2Config::KOALA_BEAR_D4_W16,
+    p3_poseidon2_circuit_air::KoalaBearD4Width16,
+    p3_koala_bear::default_koalabear_poseidon2_16
+);
+binomial_universe!(
+    Kb1,
+    "U-KB1",
+    koala_bear_params,
+    p3_test_utils::koala_bear_params::make_test_config,
+    p3_koala_bear::KoalaBear,
+    1,
+    no,
+    p3_circuit::ops::Poseidon2Config::KOALA_BEAR_D4_W16,
+    p3_poseidon2_circuit_air::KoalaBearD4Width16,
+    p3_koala_bear::default_koalabear_poseidon2_16
+);
+binomial_universe!(
+    Gl2,
+    "U-GL2",
+    goldilocks_params,
+    gl_make_test_config,
+    p3_field::extension::BinomialExtensionField<p3_goldilocks::Goldilocks, 2>,
+    2,
+    no,
+    p3_circuit::ops::Poseidon2Config::BABY_BEAR_D4_W16,
+    p3_poseidon2_circuit_air::BabyBearD4Width16,
+    p3_baby_bear::default_babybear_poseidon2_16
+);
+
+pub fn gl_make_test_config() -> p3_test_utils::goldilocks_params::MyConfig {
+    use p3_test_utils::goldilocks_params::*;
+    let mut rng = <rand::rngs::SmallRng as rand::SeedableRng>::seed_from_u64(1);
+    let perm = Perm::new_from_rng_128(&mut rng);
+    let hash = MyHash::new(perm.clone());
+    let compress = MyCompress::new(perm.clone());
+    let val_mmcs = MyMmcs::new(hash, compress, 0);
+    let challenge_mmcs = ChallengeMmcs::new(val_mmcs.clone());
+    let fri_params = p3_fri::FriParameters::new_testing(challenge_mmcs, 0);
+    let pcs = MyPcs::new(Dft::default(), val_mmcs, fri_params);
+    MyConfig::new(pcs, Challenger::new(perm))
+}
